@@ -41,6 +41,7 @@ func (m *Dense) Solve(a, b Matrix) error {
 		panic(ErrShape)
 	}
 	m.reuseAsNonZeroed(ac, bc)
+	m.checkOverlapMatrix(aU)
 
 	switch {
 	case ar == ac:
@@ -115,10 +116,25 @@ func (v *VecDense) SolveVec(a Matrix, b Vector) error {
 			b := VecDense{mat: bmat}
 			bm = b.asDense()
 		}
-		return m.Solve(a, bm)
+		return m.Solve(v.sameAsDense(a, m), bm)
 	}
 
 	v.reuseAsNonZeroed(c)
 	m := v.asDense()
-	return m.Solve(a, b)
+	return m.Solve(v.sameAsDense(a, m), b)
+}
+
+// sameAsDense returns m, the Dense representation of the receiver, in place
+// of a when a is the receiver or its transpose, so that the matrix code
+// sees pointer identity rather than two distinct values over the same
+// elements. Otherwise it returns a.
+func (v *VecDense) sameAsDense(a Matrix, m *Dense) Matrix {
+	aU, trans := untranspose(a)
+	if aU != Matrix(v) {
+		return a
+	}
+	if trans {
+		return m.T()
+	}
+	return m
 }
